@@ -248,6 +248,9 @@ func _newPipe(ctx context.Context, connFn func(context.Context) (net.Conn, error
 				infoStr, err = r.ToString()
 				if err == nil {
 					if sm := infoAZ.FindStringSubmatch(infoStr); len(sm) > 1 {
+						if p.info == nil { // HELLO was rejected: no info map yet
+							p.info = make(map[string]RedisMessage, 1)
+						}
 						p.info["availability_zone"] = strmsg('+', sm[1])
 					}
 				}
@@ -359,6 +362,9 @@ func _newPipe(ctx context.Context, connFn func(context.Context) (net.Conn, error
 					infoStr, err = r.ToString()
 					if err == nil {
 						if sm := infoAZ.FindStringSubmatch(infoStr); len(sm) > 1 {
+							if p.info == nil { // HELLO was rejected: no info map yet
+								p.info = make(map[string]RedisMessage, 1)
+							}
 							p.info["availability_zone"] = strmsg('+', sm[1])
 						}
 					}
